@@ -48,14 +48,14 @@ class C04(Check):
                     'joint': '1..3 series, lengths W..W+2 independently (3 series: W..W+1)', 'iteration_limit': '1..2',
                     'labels': 'positional pattern (all sizes) and fully symbolic (<=4 stacked points, K=2)',
                     'call history': 'two consecutive front-end calls on the same arrays, window sizes 1..3 each'}
-        return {'W': '1..9', 'N': '1..2', 'K': '2..3', 'single series length': 'W..W+4',
+        return {'W': '1..12', 'N': '1..2', 'K': '2..3', 'single series length': 'W..W+4',
                 'joint': '1..4 series, lengths W..W+2 independently', 'iteration_limit': '1..2',
                 'labels': 'positional pattern (all sizes) and fully symbolic (<=5 stacked points, K=2..3)',
                 'call history': 'two consecutive front-end calls on the same arrays, window sizes 1..5 (joint 1..4) each'}
 
     def configs(self, tier):
         q = tier == 'quick'
-        Wmax = 6 if q else 9
+        Wmax = 6 if q else 12
         cfgs = [Config('single_pattern', self.single, {'Wmax': Wmax, 'dT': 3 if q else 4, 'sym': False},
                        split=2, witness_every=11),
                 Config('single_symbolic', self.single, {'Wmax': 3 if q else 4, 'dT': 2 if q else 3, 'sym': True},
@@ -162,6 +162,11 @@ class C04(Check):
 
     def _judge(self, c, ml, res, label_lists, lens, W, N, K, which):
         joint = list(ml.relabel_states[-1].point_labels) if ml.relabel_states else None
+        if ml.relabel_states and all(isinstance(x, int) for st in ml.relabel_states for x in st.point_labels):
+            # positional pattern: the replay scripts exactly these labellings on the real build
+            c.notes['round_labels'] = [[int(x) for x in st.point_labels] for st in ml.relabel_states]
+        else:
+            c.notes.pop('round_labels', None)
         front = (W - 1) // 2
         back = (W - 1) - front
         f = [joint is not None and len(joint) == sum(L - W + 1 for L in lens)]
